@@ -83,10 +83,20 @@ def run(ctx):
     vlib.validate_cases(ctx, "ImportsTrace", "ImportsTrace.cfg", io, label="imports", timeout=1800, sig=isig, sigv=lambda c, rec, v: v + ":" + isig(c), rerun=None,
                         input_keys=["refs", "pkg", "src"], observed_keys=["out", "crash", "parses", "imports", "groupBreak", "sels", "placed", "leftover"],
                         nontrivial=lambda c: len(c["imports"]) >= 2)
+    # how tables are written into the generated code (Emit.tla): element width at the int8/int16 boundaries, greedy line layout read back,
+    # keyword-switch sizes and buckets around the power-of-two thresholds; through the gen.Verif* hooks
+    ec = ctx.path("emit.ndjson")
+    ctx.tlc("EmitGen", "Gen.cfg", workers=1, timeout=900, name="emitgen", env={"VERIF_OUT": ec})
+    eo = ctx.path("emit.rec.ndjson")
+    ctx.vhrun(["emit-run", ec, eo], timeout=600)
+    esig = lambda c: "emit:%s:%s" % (c["k"], (str(c["arr"]) + " pad%d w%d" % (c["padLen"], c["maxWidth"])) if c["k"] != "switch" else str(c["keys"]))
+    vlib.validate_cases(ctx, "EmitTrace", "EmitTrace.cfg", eo, label="emit", timeout=1800, sig=esig, sigv=lambda c, rec, v: v + ":" + esig(c), rerun=None,
+                        input_keys=["k", "arr", "padLen", "maxWidth", "keys"], observed_keys=["crash", "width", "values", "breaks", "maxLine", "size", "cases"],
+                        nontrivial=lambda c: c["width"] > 8 or len(c["breaks"]) > 1 or len(c["cases"]) > 1)
     ctx.cov["programs"] = len(results)
     ctx.cov["rule"] = ("5 base grammars x (home valuation + all single and pairwise flips of 23 boolean Go-target options)%s = %d configurations; each compiled, generated and built by the "
                        "real tool chain; TLC admits Rejected or Write+/Build-ok only. gen.ExtractGoImports: all 5944 sources of 1-3 qualified references (5 paths x 4 alias choices, with/without package clause) "
-                       "against Imports.tla. Non-trivial: accepted configurations that set at least two options." % ("" if thorough else ", all single flips and every 4th pairwise one", len(results)))
+                       "against Imports.tla; 819 arrays over the int8/int16 boundary values, 8184 table layouts and 135 keyword sets against Emit.tla. Non-trivial: accepted configurations that set at least two options." % ("" if thorough else ", all single flips and every 4th pairwise one", len(results)))
     ctx.assumptions += ["'builds' is decided by go1.26 build; configurations the compiler rejects with errors are outside the quantifier",
                         "the predicted file set is limited to lexer/token/parser files",
                         "table-size thresholds: one lexer with more than 32767 DFA states, one mid-size grammar and ten lexers around the rune-map thresholds are generated and built with the home valuation"]
